@@ -442,7 +442,7 @@ def gen_tasks(tier, seed):
         ("MinErrorFlow", {"edges": [("s", "a", 5), ("a", "b", 3), ("a", "c", 4), ("b", "t", 3), ("c", "t", 1)], "kwargs": {"weight_type": "int", "few_flow_values_epsilon": 0.5}}),
     ]
     for cls, spec_ in inst:
-        for status in ("kTimeLimit", "kInterrupt", "kUnknown", "custom-alarm"):
+        for status in ("kTimeLimit", "kInterrupt", "kUnknown", "kUnboundedOrInfeasible", "kSolutionLimit", "custom-alarm"):
             tasks.append({"kind": "inject", "cls": cls, "spec": spec_, "status": status})
     tasks.append({"kind": "getters"})
     for i, t in enumerate(tasks):
